@@ -46,6 +46,17 @@ theorem every_use_names_agree :
       ∀ v, u.goVal = some v → namesAgree (named v.fields) (named u.cVal.fields) = true := by
   decide
 
+/-- Padding is recognised narrowly (blank Go fields; C members named `_pad…`/`reserved…` exactly) and a leaf
+    dropped from the comparison on one side lies over padding on the other side too — it overlaps no data leaf. -/
+theorem every_use_padding_is_padding :
+    ∀ u ∈ mapUses, padsClear u.goKey u.cKey = true ∧ padsClearOpt u.goVal u.cVal = true := by
+  decide
+
+/-- The kernel programs access every map THROUGH the key/value types its declaration names: the helpers take
+    `void *`, so the compiler would accept `struct other *v = bpf_map_lookup_elem(&m, &k)`; the translator types
+    every lookup/update/delete call site (and dies on a form it cannot type) and lists the disagreements. -/
+theorem programs_access_maps_through_declared_types : cAccessMismatches = [] := by decide
+
 /-- The only data leaf where Go holds a byte array for a C integer is the LPM-trie address of
     `allowed_ranges_v4` (`IP [4]byte` for `__u32 ip`, /repo 61ee199: network byte order on purpose).  Any
     other such leaf would be accepted by `agrees` as a layout but needs its byte order looked at: it breaks
@@ -307,7 +318,8 @@ theorem d10Fields_eq : d10Fields = [
     ("ip_pools", "value", "dns_primary"), ("ip_pools", "value", "dns_secondary"),
     ("server_config", "value", "server_ip"), ("subscriber_nat", "key", ""),
     ("subscriber_nat", "value", "block.public_ip"), ("hairpin_ips", "key", ""),
-    ("eim_table", "key", "internal_ip"), ("nat_sessions", "key", "src_ip"), ("nat_sessions", "key", "dst_ip")] := by
+    ("eim_table", "key", "internal_ip"), ("nat_sessions", "key", "src_ip"), ("nat_sessions", "key", "dst_ip"),
+    ("nat_sessions", "value", "orig_ip"), ("nat_sessions", "value", "dest_ip")] := by
   decide
 
 /-- a transport port `p`: Go marshals the number (low byte first), the NAT program stores the header
@@ -325,6 +337,29 @@ theorem portField_wire (p : Nat) (h : p < 2 ^ 16) :
 
 /-- KF-C06-port-order as a theorem: port 5000 (0x1388) -/
 theorem KF_port_order_witness : portFieldGo 5000 = [0x88, 0x13] ∧ portFieldC 5000 = [0x13, 0x88] := by
+  decide
+
+/-- the KF-C06-port-order exclusion list, spelled out (computed from the port convention table) -/
+theorem portOrderFields_eq : portOrderFields = [
+    ("eim_table", "key", "internal_port"), ("nat_sessions", "key", "src_port"), ("nat_sessions", "key", "dst_port"),
+    ("nat_sessions", "value", "nat_port"), ("nat_sessions", "value", "orig_port"), ("nat_sessions", "value", "dest_port")] := by
+  decide
+
+/-- the whole port table names 2-byte integer leaves of maps the Go code uses -/
+theorem portFields_are_u16_leaves :
+    ∀ p ∈ portFields, ∃ u ∈ mapUses, u.map = p.map ∧ ∃ f, cLeaf u p.side p.leaf = some f ∧ f.width = 2 ∧ f.kind = Kind.int := by
+  decide
+
+/-- **Coverage of the convention tables** (no name heuristics): EVERY 4-byte and every 2-byte integer leaf of a
+    C record used by a map the Go code touches is classified — an IPv4 leaf (`ipFields`), a port leaf
+    (`portFields`), or one of the explicitly listed plain integers (`plainLeaves`: ids, counters, flags, lengths).
+    A new or renamed 4- or 2-byte leaf breaks this theorem until somebody decides which it is. -/
+theorem convention_tables_cover_all_u32_u16_leaves :
+    ∀ u ∈ mapUses, ∀ sf ∈ (u.cKey.fields.map fun f => ("key", f)) ++ (u.cVal.fields.map fun f => ("value", f)),
+      sf.2.kind = Kind.int → sf.2.norm ≠ "_" → (sf.2.width = 4 ∨ sf.2.width = 2) →
+        (ipFields.any fun r => r.map == u.map && r.side == sf.1 && r.leaf == sf.2.name) = true ∨
+        (portFields.any fun r => r.map == u.map && r.side == sf.1 && r.leaf == sf.2.name) = true ∨
+        (plainLeaves.contains (u.map, sf.1, sf.2.name)) = true := by
   decide
 
 theorem portOrderFields_are_u16_leaves :
